@@ -21,8 +21,8 @@ ENTRY = [f"{EXP}:save_score_midi", f"{EXP}:map_to_track_channel", f"{EXP}:get_pp
 
 
 def run(ctx):
-    from ..rules import generic as _G11
-    _G11.rule_F11(ctx, ['partitura.io.exportmidi', 'partitura.io.importmidi'], 'C04')
+    from ..rules import extra as _X3
+    _X3.rule_single_rounding_offset(ctx)
     M.rule_velocity_taint(ctx)
     M.rule_F10(ctx, f"{EXP}:save_score_midi", "ppq", 1)
     M.rule_ppq_defuse(ctx)
